@@ -7,11 +7,14 @@ MC = """SPECIFICATION %(spec)s
 CONSTANTS
   RetryBound = %(rb)d
   MaxTests = %(mt)d
+  MaxRuns = %(mr)d
+  Kinds = {%(kinds)s}
+  Options = {%(opts)s}
   ExitCodes = {%(exits)s}
   Signals = {%(sigs)s}
   MaxStops = %(ms)d
   Behaviours <- MCBehaviours
-INVARIANTS TypeOK OncePerEvent EventsAreFailures StopsResumed WaitsBounded ChildNotLost AllRun RunCounts
+INVARIANTS TypeOK OncePerEvent EventsAreFailures Contained StopsResumed WaitsBounded ChildNotLost AllRun RunCounts
 %(live)s
 CHECK_DEADLOCK FALSE
 """
@@ -19,11 +22,15 @@ GEN = """SPECIFICATION GSpec
 CONSTANTS
   RetryBound = %(rb)d
   MaxTests = %(mt)d
+  MaxRuns = %(mr)d
+  Kinds = {%(kinds)s}
+  Options = {%(opts)s}
   ExitCodes = {%(exits)s}
   Signals = {%(sigs)s}
   MaxStops = %(ms)d
   Behaviours = {}
   Bursts = {%(bursts)s}
+  Faults = %(faults)s
 INVARIANTS Dump
 CHECK_DEADLOCK FALSE
 """
@@ -31,6 +38,9 @@ TRACE = """SPECIFICATION %(spec)s
 CONSTANTS
   RetryBound = %(rb)d
   MaxTests = 100000
+  MaxRuns = 100000
+  Kinds = {}
+  Options = {}
   ExitCodes = {}
   Signals = {}
   MaxStops = 0
@@ -43,13 +53,19 @@ IGN = {17, 18, 23, 28}
 STOP = {19, 20, 21, 22}
 
 
+PLAIN, BOTH = '"plain"', '"plain", "ignored"'
+SEP, SEPRI = '"sep"', '"sep", "ri"'
+
+
 def beh_to_exec(h):
     ex = []
     for st in h:
         if st["op"] == "begin":
             ex.append(["begin", st["b"], "stub"])
-        elif st["op"] in ("fork",):
-            ex.append(["fork", st["a"]])
+        elif st["op"] in ("fork", "addtest"):
+            ex.append([st["op"], st["a"]])
+        elif st["op"] == "teststart":
+            ex.append(["teststart", st["a"]])
         elif st["op"] == "wait":
             ex.append(["wait", st["a"], st["b"]])
         else:
@@ -57,15 +73,45 @@ def beh_to_exec(h):
     return ex
 
 
+class Hist:
+    """a history of one registry, written as a script; mirrors which tests of a run execute where (python twin of Place in
+    SepProcess.tla - only used to write scripts with the right lines; the judgement is TLC's)"""
+
+    def __init__(self, mode):
+        self.mode, self.ex, self.tests, self.sep, self.ri, self.runs = mode, [], [], False, False, 0
+
+    def add(self, kind="plain"):
+        self.ex.append(["addtest", kind]); self.tests.insert(0, kind)
+
+    def setsep(self):
+        self.ex.append(["setsep"]); self.sep = True
+
+    def setri(self):
+        self.ex.append(["setri"]); self.ri = True
+
+    def place(self, kind):
+        return "none" if (kind == "ignored" and not self.ri) else "child" if self.sep else "runner"
+
+    def run(self, per_test):
+        """per_test(i, n, kind, place) -> (teststart fields, [outcome lines])"""
+        self.runs += 1
+        self.ex.append(["begin", len(self.tests), self.mode])
+        for i, k in enumerate(self.tests):
+            start, outcomes = per_test(i, len(self.tests), k, self.place(k))
+            self.ex.append(["teststart"] + list(start))
+            self.ex += [list(o) for o in outcomes]
+            self.ex.append(["endtest"])
+        self.ex.append(["end"])
+
+
 def stub_exec(tests):
-    """tests: list of outcome lists, e.g. [("fork","ok"),("wait","eintr",0),("wait","exited",3)]"""
-    ex = [["begin", len(tests), "stub"]]
-    for t in tests:
-        ex.append(["teststart"])
-        ex += [list(o) for o in t]
-        ex.append(["endtest"])
-    ex.append(["end"])
-    return ex
+    """one separate-process run of plain tests; tests: list of outcome lists, e.g. [("fork","ok"),("wait","eintr",0),("wait","exited",3)]"""
+    H = Hist("stub")
+    H.setsep()
+    for _ in tests:
+        H.add()
+    H.run(lambda i, n, k, pl: ((), tests[i]))
+    return H.ex
 
 
 def final(kind, arg):
@@ -98,45 +144,77 @@ def stub_sweeps(rng, K, quick):
     return execs
 
 
-def random_stub(rng, K):
-    tests = []
-    for _ in range(rng.randint(1, 12)):
-        if rng.random() < 0.1:
-            tests.append([("fork", "fail")]); continue
-        t = [("fork", "ok")]
-        eintr = 0
-        while True:
-            r = rng.random()
-            if r < 0.25:
-                n = rng.choice([1, 1, 2, 5, K - 1, K])
-                n = min(n, K - eintr)
-                t += [("wait", "eintr", 0)] * n
-                eintr += n
-                if eintr >= K:
-                    break
-            elif r < 0.40 and sum(1 for o in t if o[1] == "stopped") < 4:
-                t.append(("wait", "stopped", rng.choice([19, 20, 21, 22, 5])))
-            elif r < 0.45:
-                t.append(("wait", "error", 0)); break
-            elif r < 0.75:
-                t.append(("wait", "exited", rng.choice([0, 0, 0, 1, 1, rng.randrange(256)]))); break
+def random_outcomes(rng, K):
+    """fork/waitpid outcomes of one forked test"""
+    if rng.random() < 0.1:
+        return [("fork", "fail")]
+    t = [("fork", "ok")]
+    eintr = 0
+    while True:
+        r = rng.random()
+        if r < 0.25:
+            n = rng.choice([1, 1, 2, 5, K - 1, K])
+            n = min(n, K - eintr)
+            t += [("wait", "eintr", 0)] * n
+            eintr += n
+            if eintr >= K:
+                break
+        elif r < 0.40 and sum(1 for o in t if o[1] == "stopped") < 4:
+            t.append(("wait", "stopped", rng.choice([19, 20, 21, 22, 5])))
+        elif r < 0.45:
+            t.append(("wait", "error", 0)); break
+        elif r < 0.75:
+            t.append(("wait", "exited", rng.choice([0, 0, 0, 1, 1, rng.randrange(256)]))); break
+        else:
+            t.append(("wait", "signaled", rng.randint(1, 31))); break
+    return t
+
+
+def random_history(rng, mode, per_test, ntests=(1, 8), always_sep=0.8):
+    """a random life of one registry: tests of both kinds added, options set at random points, 1-3 runs, tests added and
+    options set between the runs.  The separate-process option is set at the latest before the last run."""
+    H = Hist(mode)
+    first = ["add"] * rng.randint(*ntests)
+    if rng.random() < always_sep:
+        first.append("sep")
+    if rng.random() < 0.5:
+        first.append("ri")
+    rng.shuffle(first)
+    nruns = rng.choice([1, 1, 2, 2, 3])
+    for r in range(nruns):
+        ops = first if r == 0 else (["add"] * rng.randint(0, 3) + (["sep"] if not H.sep and rng.random() < 0.6 else [])
+                                    + (["ri"] if not H.ri and rng.random() < 0.4 else []))
+        if r == nruns - 1 and not H.sep and "sep" not in ops:
+            ops.append("sep")
+        if r > 0:
+            rng.shuffle(ops)
+        for o in ops:
+            if o == "add":
+                H.add("ignored" if rng.random() < 0.35 else "plain")
+            elif o == "sep":
+                H.setsep()
             else:
-                t.append(("wait", "signaled", rng.randint(1, 31))); break
-        tests.append(t)
-    return stub_exec(tests)
+                H.setri()
+        H.run(per_test)
+    return H.ex
 
 
-def real_exec(tests):
-    ex = [["begin", len(tests), "real"]]
-    for (act, arg, place) in tests:
-        ex.append(["teststart", act, arg, place])
-        ex.append(["endtest"])
-    ex.append(["end"])
-    return ex
+def random_stub(rng, K):
+    def per_test(i, n, kind, place):
+        if place == "child":
+            return (), random_outcomes(rng, K)
+        if place == "runner":
+            return (rng.choice(["pass", "pass", "fail"]), 0, rng.choice(PLACES)), []
+        return (), []
+    return random_history(rng, "stub", per_test, ntests=(1, 8))
+
+
+NEVER = [("signal", 11, "body"), ("signal", 9, "setup"), ("exit", 3, "body"), ("fail", 0, "body"), ("signal", 6, "pre")]
 
 
 def real_sweeps(rng, quick):
-    execs = []
+    """real children that die in every way at every place, spread over random registry histories (tests of both kinds, run-ignored,
+    several runs, tests added between runs): whatever the history, in a separate-process run every executed test is a child"""
     allb = []
     for s in range(1, 32):
         places = PLACES if not quick else [PLACES[s % 5], PLACES[(s + 2) % 5]] if s not in IGN | STOP else PLACES[:3] if s in STOP else [PLACES[s % 5]]
@@ -152,10 +230,20 @@ def real_sweeps(rng, quick):
         allb += [("fail", 0, p), ("pass", 0, p)]
     allb += [("stop-twice", 0, "body"), ("stop-twice", 0, "teardown")]
     rng.shuffle(allb)
-    # every dying test is followed by tests that must still run; a passing test closes each run
-    for i in range(0, len(allb), 24):
-        execs.append(real_exec(allb[i:i + 24] + [("pass", 0, "body")]))
-    return execs
+    pool = list(allb)
+
+    def per_test(i, n, kind, place):
+        if place == "child":
+            # every dying test is followed by tests that must still run; a passing test closes each run
+            return (pool.pop() if pool and i < n - 1 else ("pass", 0, "body")), []
+        if place == "runner":       # a run without the option: outside C11, the test only passes or fails a check
+            return (rng.choice(["pass", "pass", "fail"]), 0, rng.choice(PLACES)), []
+        return rng.choice(NEVER), []   # an ignored test that is not run: its body would be fatal, and is never executed
+
+    execs = []
+    while pool:
+        execs.append(random_history(rng, "real", per_test, ntests=(4, 10), always_sep=0.9))
+    return execs, len(allb)
 
 
 def run(ctx):
@@ -189,6 +277,12 @@ def run(ctx):
     pcfg = ctx.write_cfg("Predict_SepProcess", TRACE % {"spec": "PSpec", "rb": RB, "tail": "INVARIANT Predict"})
 
     def key_stub(kind, ex, idx, observed):
+        if kind == "reject" and observed:
+            # named after the rejected log line (the log of a deviating run need not be aligned with the script any more)
+            parts = [observed.get("op")] + [str(observed[f]) for f in ("res", "out") if f in observed]
+            if observed.get("op") == "endtest" and observed.get("inrunner"):
+                parts.append("executed-in-runner")
+            return "reject:stub:" + ":".join(parts)
         l = ex[idx] if 0 <= idx < len(ex) else ["?"]
         return "%s:stub:%s" % (kind, ":".join(str(x) for x in l[:2]))
 
@@ -206,7 +300,10 @@ def run(ctx):
         why = crashed(rc, out)
         if why or rc != 0 or nres != len(executions) - 1 or not log or log[-1].get("op") != "end":
             k = min(nres, len(executions) - 1)
-            ctx.diverge("crash:real", "%s: the parent did not survive real children: %s (execution %d)" % (label, why or "log incomplete, rc=%s" % rc, k),
+            started = [e for e in log if e.get("op") == "teststart"]
+            last = started[-1] if started and log[-1].get("op") != "end" else {}
+            ctx.diverge("crash:real" + (":in-%s-test" % last.get("kind") if last.get("kind") not in (None, "plain") else ""),
+                        "%s: the parent did not survive real children: %s (execution %d; last test started: %s)" % (label, why or "log incomplete, rc=%s" % rc, k, json.dumps(last)),
                         {"label": label, "kind": "crash", "mode": "real", "script": ["\t".join(map(str, l)) for l in executions[k]],
                          "log_tail": log[-12:], "output_tail": (out or "")[-2000:]})
             exs = split_executions(log)
@@ -232,7 +329,8 @@ def run(ctx):
             tl = [l for l in ex if l[0] == "teststart"]
             t = tl[tno - 1] if 0 < tno <= len(tl) else ["teststart", "?", "?", "?"]
             observed = lines[rel] if 0 <= rel < len(lines) else None
-            key = "reject:real:%s:%s:%s:at-%s" % (t[1], t[2], t[3], (observed or {}).get("op"))
+            tk = ([e for e in lines[:rel + 1] if e.get("op") == "teststart"] or [{}])[-1].get("kind", "plain")
+            key = "reject:real:%s%s:%s:%s:at-%s" % ("" if tk == "plain" else tk + ":", t[1], t[2], t[3], (observed or {}).get("op"))
             sub = os.path.join(ctx.work, label + ".sub.ndjson")
             with open(sub, "w") as f:
                 for e in lines[:rel + 1]:
@@ -278,37 +376,49 @@ def run(ctx):
         if rp.get("mode") == "real":
             conform_real("replay", [ex])
         else:
-            conform(ctx, "replay", [ex], run_harness, "Trace_SepProcess", tcfg, pcfg, key_stub)
+            conform(ctx, "replay", [ex], run_harness, "Trace_SepProcess", tcfg, pcfg, key_stub, end_op="end")
         return ctx.finish("replay of one recorded execution", 1)
 
     # ---- leg 1: the parent's design has the property for every outcome sequence (safety + termination), bound taken from the code
-    LIVE = {"spec": "FairSpec", "live": "PROPERTY Terminates"}
-    SAFE = {"spec": "Spec", "live": ""}
+    # (the first configurations explore the status words of one separate-process run of plain tests; "registry" explores the histories
+    # of the registry - kinds of tests, both options in every order, several runs with changes in between - over a small set of outcomes)
+    ONE = {"mr": 1, "kinds": PLAIN, "opts": SEP}
+    LIVE = dict(ONE, spec="FairSpec", live="PROPERTY Terminates")
+    SAFE = dict(ONE, spec="Spec", live="")
+    REG = {"spec": "FairSpec", "live": "PROPERTY Terminates EveryRunEnds", "kinds": BOTH, "opts": SEPRI}
     allsig = ", ".join(map(str, range(1, 32)))
     if quick:
         mcs = [("two-tests", dict(LIVE, rb=RB, mt=2, exits="0, 1", sigs="11, 19", ms=1)),
-               ("status-words", dict(LIVE, rb=RB, mt=1, exits="0, 1, 2, 127, 128, 255", sigs=allsig, ms=1))]
+               ("status-words", dict(LIVE, rb=RB, mt=1, exits="0, 1, 2, 127, 128, 255", sigs=allsig, ms=1)),
+               ("registry", dict(REG, rb=RB, mt=2, mr=2, exits="0, 1", sigs="11", ms=0))]
     else:
         mcs = [("two-tests", dict(LIVE, rb=RB, mt=2, exits="0, 1, 255", sigs="9, 11, 17, 19, 20", ms=2)),
                ("status-words", dict(LIVE, rb=RB, mt=1, exits="0, 1, 2, 127, 128, 255", sigs=allsig, ms=2)),
-               ("all-status-words-safety", dict(SAFE, rb=RB, mt=1, exits=", ".join(map(str, range(256))), sigs=allsig, ms=1))]
+               ("all-status-words-safety", dict(SAFE, rb=RB, mt=1, exits=", ".join(map(str, range(256))), sigs=allsig, ms=1)),
+               ("registry", dict(REG, rb=RB, mt=2, mr=3, exits="0, 1", sigs="11", ms=0)),
+               ("registry-safety", dict(REG, spec="Spec", live="", rb=RB, mt=3, mr=3, exits="0, 1", sigs="11, 19", ms=1))]
     ctx.notes["model"] = []
     for lab, c in mcs:
         mc = ctx.write_cfg("MC_SepProcess_" + lab, MC % c)
         r = ctx.model_check("MC_SepProcess", mc, workers=8, timeout=1500, heap="8g")
         ctx.notes["model"].append({"config": lab, "distinct_states": r.distinct, "depth": r.depth,
-                                   "constants": "RetryBound=%d (from the code), MaxTests=%d, %d exit codes, %d signals, MaxStops=%d; %s"
-                                                % (RB, c["mt"], c["exits"].count(",") + 1, c["sigs"].count(",") + 1, c["ms"],
+                                   "constants": "RetryBound=%d (from the code), MaxTests=%d, MaxRuns=%d, kinds {%s}, options {%s}, %d exit codes, %d signals, MaxStops=%d; %s"
+                                                % (RB, c["mt"], c["mr"], c["kinds"], c["opts"], c["exits"].count(",") + 1, c["sigs"].count(",") + 1, c["ms"],
                                                    "safety and liveness (Terminates under WF(Next))" if c["live"] else "safety only")})
 
     # ---- leg 2: outcome sequences generated by TLC (and systematic sweeps), fed to the real parent through the fork/waitpid seams
     nontriv = set()
     bursts = "0, 1, %d, %d" % (RB + 1, RB + 2)
+    ONE = {"mr": 1, "kinds": PLAIN, "opts": SEP, "faults": "TRUE"}
     gens = [
-        ("bfs1", {"rb": RB, "mt": 1, "exits": "0, 1, 255", "sigs": "11, 19", "ms": 1 if quick else 2, "bursts": bursts}, None, None),
-        ("bfs2", {"rb": RB, "mt": 2, "exits": "0, 1", "sigs": "11", "ms": 1, "bursts": "0, %d" % (RB + 2) if quick else bursts}, None, None),
-        ("sim", {"rb": RB, "mt": 6, "exits": "0, 1, 2, 127, 255", "sigs": ", ".join(map(str, range(1, 32))), "ms": 3, "bursts": "0, 0, 1, 2, %d, %d" % (RB, RB + 2)},
-         10 if quick else 100, 400),
+        ("bfs1", dict(ONE, rb=RB, mt=1, exits="0, 1, 255", sigs="11, 19", ms=1 if quick else 2, bursts=bursts), None, None),
+        ("bfs2", dict(ONE, rb=RB, mt=2, exits="0, 1", sigs="11", ms=1, bursts="0, %d" % (RB + 2) if quick else bursts), None, None),
+        # every history of the registry: tests of both kinds, both options set in every order, runs, changes between runs (small outcome alphabet)
+        ("registry", {"rb": RB, "mt": 2, "mr": 2 if quick else 3, "kinds": BOTH, "opts": SEPRI, "exits": "0, 1", "sigs": "", "ms": 0, "bursts": "0",
+                      "faults": "FALSE"}, None, None),
+        ("sim", {"rb": RB, "mt": 6, "mr": 3, "kinds": BOTH, "opts": SEPRI, "exits": "0, 1, 2, 127, 255", "sigs": ", ".join(map(str, range(1, 32))), "ms": 3,
+                 "bursts": "0, 0, 1, 2, %d, %d" % (RB, RB + 2), "faults": "TRUE"},
+         10 if quick else 100, 600),
     ]
     for lab, c, sim, depth in gens:
         gcfg = ctx.write_cfg("Gen_SepProcess_" + lab, GEN % c)
@@ -317,32 +427,42 @@ def run(ctx):
         if not execs:
             raise Infra("no behaviours generated by " + lab)
         ctx.sample({"source": "TLC " + lab + " (stubbed fork/waitpid)", "execution": ["\t".join(map(str, l)) for l in execs[ctx.rng.randrange(len(execs))]][:14]})
-        conform(ctx, lab, execs, run_harness, "Trace_SepProcess", tcfg, pcfg, key_stub, tlc_timeout=1500)
+        conform(ctx, lab, execs, run_harness, "Trace_SepProcess", tcfg, pcfg, key_stub, tlc_timeout=1500, end_op="end")
         ctx.evaluations += sum(len(e) for e in execs)
-        nontriv.update(json.dumps(e) for e in execs if any(l[0] == "wait" and l[1] != "exited" or l[0] == "fork" and l[1] == "fail" or (l[0] == "wait" and l[2] != 0) for l in e))
+        nontriv.update(json.dumps(e) for e in execs if any(l[0] == "wait" and l[1] != "exited" or l[0] == "fork" and l[1] == "fail" or (l[0] == "wait" and l[2] != 0)
+                                                           or l[0] == "setri" or (l[0] == "addtest" and l[1] == "ignored") for l in e)
+                       or sum(1 for l in e if l[0] == "begin") > 1)
     execs = stub_sweeps(ctx.rng, K, quick) + [random_stub(ctx.rng, K) for _ in range(30 if quick else 400)]
     ctx.sample({"source": "systematic sweep (stubbed fork/waitpid)", "execution": ["\t".join(map(str, l)) for l in execs[0][:10]]})
-    conform(ctx, "sweep", execs, run_harness, "Trace_SepProcess", tcfg, pcfg, key_stub, tlc_timeout=1500)
+    conform(ctx, "sweep", execs, run_harness, "Trace_SepProcess", tcfg, pcfg, key_stub, tlc_timeout=1500, end_op="end")
     ctx.evaluations += sum(len(e) for e in execs)
     nontriv.update(json.dumps(e) for e in execs)
 
     # ---- leg 3: real forks: children that die in every way, at every place; the kernel's answers are logged and validated
-    execs = real_sweeps(ctx.rng, quick)
+    execs, nbeh = real_sweeps(ctx.rng, quick)
     ctx.sample({"source": "real children", "execution": ["\t".join(map(str, l)) for l in execs[0][:10]]})
     conform_real("real", execs)
     ntests = sum(1 for e in execs for l in e if l[0] == "teststart")
     ctx.evaluations += ntests
     nontriv.update(json.dumps(e) for e in execs)
-    ctx.notes["real_children"] = ntests
+    ctx.notes["real_children"] = {"tests_started": ntests, "dying_behaviours": nbeh, "registry_histories": len(execs),
+                                  "runs": sum(1 for e in execs for l in e if l[0] == "begin"),
+                                  "histories_with_run_ignored": sum(1 for e in execs if any(l[0] == "setri" for l in e)),
+                                  "histories_with_tests_added_between_runs": sum(1 for e in execs if any(l[0] == "addtest" and any(m[0] == "end" for m in e[:i]) for i, l in enumerate(e)))}
     return ctx.finish(
-        rule="executions = (a) fork/waitpid outcome sequences generated by TLC from SepProcess.tla (exhaustive for 1 and 2 tests with EINTR bursts of 0, 1 and "
-             "around the retry bound; simulation up to 6 tests over all signals) and systematic sweeps (every exit status, every signal as killer and as stopper, "
+        rule="executions = histories of one real TestRegistry: (a) fork/waitpid outcome sequences generated by TLC from SepProcess.tla (exhaustive for 1 and 2 tests with EINTR bursts of 0, 1 and "
+             "around the retry bound; exhaustive registry histories - plain and ignored tests added, separate-process and run-ignored options set in every order, "
+             "2-3 runs with tests added / options set between runs; simulation up to 6 tests and 3 runs over all signals) and systematic sweeps (every exit status, every signal as killer and as stopper, "
              "EINTR runs of every length around the bound, seeded random mixes), fed to the real parent code through the PlatformSpecificFork/WaitPid seams; "
-             "(b) real forked children that raise each signal 1..31, _exit statuses, fail a check, stop themselves, in setup/body/teardown/plugin pre/post; "
+             "(b) real forked children that raise each signal 1..31, _exit statuses, fail a check, stop themselves, in setup/body/teardown/plugin pre/post, "
+             "spread over seeded random registry histories (ignored tests with and without run-ignored, several runs, tests added between runs); the log says for every test whether "
+             "any of its code executed in the runner process; "
              "every log is validated by TLC; distinct = distinct scripts; non-trivial = contains an outcome other than a clean exit",
         distinct_nontrivial=len(nontriv), exhaustive=False,
         assumptions=["Linux default signal dispositions (terminate / ignore 17,18,23,28 / stop 19-22); whether terminal stop signals take effect is probed at start",
                      "the failure texts are classified by their current wording; unknown wording is only counted",
                      "SIGCONT delivery is observed only with stubbed fork/waitpid (through the harmless child); with real children a missing SIGCONT shows as a child that never ends (6 s deadline)",
                      "plain build (no sanitizer runtime, which would intercept the fatal signals)",
-                     "a child that stops for ever, or SIGKILL/SIGSTOP of the parent itself, are outside the statement"])
+                     "a child that stops for ever, or SIGKILL/SIGSTOP of the parent itself, are outside the statement",
+                     "runs of a registry without the separate-process option are outside the statement: there the tests only pass or fail a check",
+                     "name/group filters, shuffling and reversing of the test list are not part of the histories"])
